@@ -82,6 +82,10 @@ func fromObj(defs []meta.Definition, obj map[string]interface{}) (*Tree, error) 
 				t.Leaves[id] = L(val.NotEmpty)
 				continue
 			}
+			if ty.Format() == val.FmtAny {
+				t.Leaves[id] = L(val.Any{Thing: plainJSON(x)})
+				continue
+			}
 			v := ParseScalar(ty, fmt.Sprint(x))
 			if v == nil {
 				return nil, fmt.Errorf("%s: unsupported leaf type %s", id, ty.Format())
@@ -90,4 +94,22 @@ func fromObj(defs []meta.Definition, obj map[string]interface{}) (*Tree, error) 
 		}
 	}
 	return t, nil
+}
+
+// plainJSON turns json.Number leaves into float64 (what encoding/json gives without UseNumber).
+func plainJSON(x interface{}) interface{} {
+	switch t := x.(type) {
+	case json.Number:
+		f, _ := t.Float64()
+		return f
+	case map[string]interface{}:
+		for k, v := range t {
+			t[k] = plainJSON(v)
+		}
+	case []interface{}:
+		for i, v := range t {
+			t[i] = plainJSON(v)
+		}
+	}
+	return x
 }
